@@ -27,7 +27,7 @@ ASSUMPTIONS = [
     "default on an AnyField (the caller's object is handed out like a mutable default argument) and mutable items "
     "nested inside an untyped container default (only the container is copied) are not mutated by the harness",
 ]
-REQUIRED = ["serialize", "cross-assign+edit", "observer:before", "observer:middle", "observer:after", "inplace:typed", "inplace:untyped", "shared-item-type", "dynamic-add"]
+REQUIRED = ["serialize", "cross-assign+edit", "cross-assign+edit:list", "cross-assign+edit:dict", "observer:before", "observer:middle", "observer:after", "inplace:typed", "inplace:untyped", "shared-item-type", "dynamic-add"]
 LEVEL_TEXT = (
     "Generated schemas and histories on one instance with an untouched observer instance and a frozen schema "
     "snapshot as oracle; kills mutants that stop copying default containers, register dynamic fields on the "
@@ -282,6 +282,38 @@ def run_case(case, R):
                 if not R.check(now == snap, "isolated", name + (":" + str(op.get("what")) if op.get("what") else ""),
                                lambda: "op %r on A changed B: %s" % (op.get("op"), worlds.diff(snap, now))):
                     observers[observers.index((b, snap))] = (b, now)
+
+        # systematic pass: A takes over, one by one, every typed container a further configuration C holds and edits its
+        # own value in place; C must not see any of it
+        containers = [(p, nd) for p, nd in leaves if (nd["kind"] == "list" and nd.get("item") and nd["item"]["kind"] != "any")
+                      or (nd["kind"] == "dict" and (nd.get("keyf") or nd.get("valuef")))]
+        if containers:
+            c = world.schema(key_filename=keyfile)
+            _fill_observer(world, c, case)
+            csnap = worlds.snapshot(c, cc)
+            for path, node in containers:
+                theirs = worlds.get_path(c, path)
+                if not theirs:
+                    continue
+                try:
+                    ops.set_via(state["cfg"], path, theirs, "setattr")
+                except Exception:
+                    continue
+                mine = worlds.get_path(state["cfg"], path)
+                try:
+                    if isinstance(mine, dict):
+                        mine.pop(next(iter(mine)))
+                    else:
+                        mine.pop()
+                except Exception:
+                    continue
+                inplace = True
+                R.label("cross-assign+edit:" + node["kind"])
+                now = worlds.snapshot(c, cc)
+                if not R.check(now == csnap, "isolated", "cross_assign:" + node["kind"],
+                               lambda: "A took over C's %s and edited its own value in place; C changed: %s" % (".".join(path), worlds.diff(csnap, now))):
+                    csnap = now
+            observers.append((c, csnap))
 
         if when == "after" or not observers:
             b = world.schema(key_filename=keyfile)
